@@ -72,6 +72,8 @@ struct DaemonScenario : Scenario {
   size_t tick_pos = std::string::npos, tick_end = 0; int tick_cnt = 0;
   bool catchall = false;         // control/virtualdomains also has a catch-all entry and an exception
   int held_ticks = 0, burned = 0;
+  bool clockback = false, clock_was_set_back = false;   // option clockback=1
+  bool queue_refusals = false;   // option queuerefuse=1: the bounce's queue program may exit 31 / 53 (alternatives())
   bool hupedit = false, config_b = false;   // C10: every HUP is preceded by an edit of locals/virtualdomains (far.example becomes local, virt2.example virtual) / back
   bool expect_leftovers = false; // failed or hung injections legitimately leave S2/S3 files that are collected after 36 hours
   bool mark_check_off = false;   // after an injected failure inside the daemon the report/mark alignment is unknown until it restarts
@@ -95,7 +97,7 @@ struct DaemonScenario : Scenario {
     while (i < ms.size()) { size_t j = ms.find('+', i); if (j == std::string::npos) j = ms.size(); std::string n = ms.substr(i, j - i); for (auto &x : cat) if (x.name == n) tosend.push_back(x); i = j + 1; }
     inject_mode = c.get("inject", "seq");
     conc_l = c.geti("concl", 2); conc_r = c.geti("concr", 2); announce = c.geti("announce", 120); lifetime = c.geti("lifetime", 604800);
-    catchall = c.geti("catchall", 0); hupedit = c.geti("hupedit", 0);
+    catchall = c.geti("catchall", 0); hupedit = c.geti("hupedit", 0); queue_refusals = c.geti("queuerefuse", 0); clockback = c.geti("clockback", 0);
     max_ticks = c.geti("maxticks", 60); max_restarts = c.geti("maxrestarts", 3); clock_frozen = c.geti("frozenclock", 0);
   }
   bool M(const char *m) { return mon.count(m) > 0; }
@@ -515,6 +517,8 @@ struct DaemonScenario : Scenario {
   }
   // ------------------------------------------------------------------ crash handling
   void alternatives(World &w, Proc &p, const Req &r, std::vector<Alt> &a) override {
+    // the queue program the daemon starts for a bounce (qmail-queue, or whatever QMAILQUEUE names) may refuse: permanently (31) or temporarily (53)
+    if (r.op == VK_EXEC && p.ppid == sendpid && sendpid && w.ex->bound[BK_FAULT] > 0 && queue_refusals && r.data.find("qmail-queue") != std::string::npos) { a.push_back({BK_FAULT, ALT_EXIT, 31}); a.push_back({BK_FAULT, ALT_EXIT, 53}); return; }
     bool mut = false;
     switch (r.op) { case VK_WRITE: { Ofd *o = w.O(p, r.a[0]); mut = o && o->kind == K_FILE; break; } case VK_OPEN: mut = (r.a[0] & (O_CREAT | O_TRUNC)) || (r.a[0] & O_ACCMODE) != O_RDONLY; break;
       case VK_UNLINK: case VK_LINK: case VK_RENAME: case VK_FSYNC: case VK_UTIMES: case VK_FTRUNCATE: mut = true; break; default: break; }
@@ -595,6 +599,8 @@ struct DaemonScenario : Scenario {
       // the cleaner of the previous incarnation exits on EOF; make sure it is gone before restarting
       if (alive(w, cleanpid)) { Proc *c = proc(w, cleanpid); if (c) w.kill_proc(*c, SIGKILL); }
       for (auto &kv : ledger) for (int c = 0; c < 2; c++) kv.second.pass_started[c] = 0;
+      if (clockback && restarts > 1 && !clock_was_set_back) {   // while the daemon is down the administrator corrects a clock that was two hours ahead: every queued message now has a birth time in the future
+        uint8_t kinds[2] = {0, BK_ENV}; if (w.ex->choose(kinds, 2)) { w.k.clock -= 7200; clock_was_set_back = true; history += " CLOCK-SET-BACK(2h)"; w.counters["clock_set_back"]++; } }
       start_daemon(w);
       return true;
     }
